@@ -127,6 +127,80 @@ def rule_c09(prog, rep):
             if not ok:
                 rep.violation('E3', f, x.get('_line'), 'datasum:%s' % x.get('opcode'), '%s changes the element count (%s) but the byte total is '
                               'changed by %s: datasum no longer equals the sum of the element sizes' % (f.name, canon(x), detail))
+    # ---- E3 (second clause): the recorded size of a linked element never changes behind the byte total's back
+    from .dataflow import ReachingDefs, origins
+    for f in sorted(prog.funcs_in(LIST), key=lambda x: x.line or 0):
+        if f.body is None:
+            continue
+        rd = None
+        for n in f.cfg.nodes:
+            if not isinstance(n.ast, dict) or n.kind == 'macro':
+                continue
+            for x in walk(n.ast):
+                if x.get('kind') not in ('BinaryOperator', 'CompoundAssignOperator') or not (x.get('opcode') or '').endswith('=') \
+                        or x.get('opcode') in ('==', '!=', '<=', '>='):
+                    continue
+                l = strip(children(x)[0])
+                if l.get('kind') != 'MemberExpr' or l.get('name') != 'size' or not l.get('isArrow'):
+                    continue
+                if 'qlist_obj' not in qtype(strip(children(l)[0])):
+                    continue
+                rd = rd or ReachingDefs(f)
+                if n.id not in rd.IN:
+                    continue
+                tags = origins(rd, n.id, children(l)[0])
+                fresh = all(t.startswith('fresh:') for t in tags)
+                cursor = (not f.static) and all(t.startswith('param:') for t in tags)
+                adjusts = any(y.get('kind') == 'CompoundAssignOperator' and canon(children(y)[0]).endswith('->datasum')
+                              for y in walk(f.body))
+                rep.instance('E3')
+                ok = fresh or cursor or adjusts
+                rep.oblige('E3', ok, {'function': f.name, 'store': canon(x)[:60], 'node': sorted(tags)})
+                if not ok:
+                    rep.violation('E3', f, x.get('_line'), 'size-store:%s' % canon(l), '%s changes the recorded size of an element that is '
+                                  'linked in the list (%s) without adjusting the byte total: datasum no longer equals the sum of the '
+                                  'element sizes' % (f.name, canon(x)[:60]))
+    # ---- E5: index -> node lookup: the scan starts only for 0 <= index < num
+    rep.rule('E5', 'the index-to-node lookup starts its scan only under the must-facts 0 <= index < num (a negative index that is '
+                   'still negative after adding num is refused; the signedness of each comparison is taken from its operand types)')
+    from .index import Facts
+    from .expr import var_init
+    for f in sorted(prog.funcs_in(LIST), key=lambda x: x.line or 0):
+        if f.body is None or 'qlist_obj' not in (f.rettype or '') or not f.rettype.rstrip().endswith('*'):
+            continue
+        ips = [p.get('name') for p in f.params if ((p.get('type') or {}).get('qualType') or '') in ('int', 'long', 'ssize_t')]
+        if not ips:
+            continue
+        facts = Facts(f)
+        numalias = set()
+        for x in walk(f.body):
+            if x.get('kind') == 'VarDecl' and var_init(x) is not None and canon(strip(var_init(x))).endswith('->num'):
+                numalias.add(x.get('name'))
+        for n in f.cfg.nodes:
+            if not isinstance(n.ast, dict) or n.kind == 'macro':
+                continue
+            starts = [x for x in walk(n.ast) if x.get('kind') == 'MemberExpr' and x.get('name') in ('first', 'last')
+                      and 'qlist_s' in str(x.get('_field') or '')]
+            if not starts:
+                continue
+            st = facts.at(n)
+            for ip in ips:
+                rep.instance('E5')
+                upper = [ft for ft in st if ft[0] == ip and ft[1] == '<' and (ft[2].endswith('->num') or ft[2] in numalias)]
+                lower = any(ft[3] == 'u' for ft in upper) or any(
+                    ft[0] == ip and ((ft[1] == '>=' and ft[2] == '0') or (ft[1] == '>' and ft[2] == '-1')) for ft in st)
+                ok = bool(upper) and lower
+                rep.oblige('E5', ok, {'function': f.name, 'line': starts[0].get('_line'), 'index': ip,
+                                      'facts': sorted('%s %s %s [%s]' % ft for ft in st if ft[0] == ip)[:6]})
+                if not ok:
+                    why = []
+                    if not upper:
+                        why.append('no must-fact %s < num' % ip)
+                    if not lower:
+                        why.append('no must-fact %s >= 0: the range test is carried out in a signed type, so an index that is still '
+                                   'negative after the normalisation is accepted' % ip)
+                    rep.violation('E5', f, starts[0].get('_line'), 'scan-start:%s' % ip,
+                                  'the scan from list->%s starts with %s' % (starts[0].get('name'), '; '.join(why)))
     # ---- E4
     f = prog.need_func('qlist_addat')
     rep.instance('E4')
